@@ -204,7 +204,7 @@ def step (st : Array V) (toks : List String) : Array V × String :=
       | fuel + 1, op :: rest =>
         if op == "X" then go fuel g rest (dump g :: acc)
         else if op == "G" then
-          match SymCache.gensym 100000 g.cache g.counter with
+          match SymCache.gensymT g.cache g.counter with
           | some (c', ctr', _) => go fuel { cache := c', counter := ctr' } rest (("g" ++ hexB ctr') :: acc)
           | none => "!" :: acc
         else
